@@ -12,6 +12,29 @@ from .lib import (MAGIC, Out, Proxy, addr_v5, base_cfg, free_port, http_connect_
                   run_main, socks5_connect, tls_client, tls_server, workdir)
 
 UDPC = ["direct", "h", "s5", "q", "qi"]
+
+
+class LossyRelay(asyncio.DatagramProtocol):
+    """UDP relay between A's quic connector and B's quic listener that drops a share of the large packets once the
+    handshake is over: QUIC retransmits stream data but never DATAGRAM frames, so fragments of UDP frames get lost"""
+
+    def __init__(self, server, rng):
+        self.server, self.rng, self.client, self.n, self.dropped = server, rng, None, 0, 0
+
+    def connection_made(self, tr):
+        self.tr = tr
+
+    def datagram_received(self, data, addr):
+        if addr[1] == self.server[1]:
+            if self.client:
+                self.tr.sendto(data, self.client)
+            return
+        self.client = addr
+        self.n += 1
+        if self.n > 12 and len(data) > 900 and self.rng.random() < 0.25:
+            self.dropped += 1
+            return
+        self.tr.sendto(data, self.server)
 HDR = struct.Struct(">4sIIHII")  # magic client session dest seq len
 
 
@@ -61,7 +84,7 @@ async def mk_origin(oid, host="127.0.0.1", family=socket.AF_INET):
 
 
 def build(args, wd, origins):
-    P = {k: free_port() for k in ("B.http", "B.socks", "B.quic", "B.api", "A.http", "A.api")}
+    P = {k: free_port() for k in ("B.http", "B.socks", "B.quic", "B.api", "A.http", "A.api", "relay", "A.socks-ql")}
     tag = {ck: 2000 + i for i, ck in enumerate(UDPC)}
     a_l = [{"name": "http", "bind": "127.0.0.1:%d" % P["A.http"]}]
     rules = []
@@ -71,7 +94,10 @@ def build(args, wd, origins):
         a_l.append({"name": "socks-" + ck, "type": "socks", "bind": "127.0.0.1:%d" % P["A.socks-" + ck]})
         a_l.append({"name": "rev-" + ck, "type": "reverse", "protocol": "udp", "bind": "127.0.0.1:%d" % P["A.rev-" + ck], "target": "127.0.0.1:%d" % origins[0].port})
         rules.append({"filter": "request.listener == \"socks-%s\" || request.listener == \"rev-%s\" || request.target.port == %d" % (ck, ck, tag[ck]), "target": ck})
+    a_l.append({"name": "socks-ql", "type": "socks", "bind": "127.0.0.1:%d" % P["A.socks-ql"]})
+    rules.append({"filter": "request.listener == \"socks-ql\"", "target": "ql"})
     a_c = [
+        {"name": "ql", "type": "quic", "server": "localhost", "port": P["relay"], "tls": tls_client(), "bind": "127.0.0.1:0"},
         {"name": "direct"},
         {"name": "h", "type": "http", "server": "127.0.0.1", "port": P["B.http"]},
         {"name": "s5", "type": "socks", "server": "127.0.0.1", "port": P["B.socks"]},
@@ -191,7 +217,17 @@ class Session:
             self.ctl.write(b"RPFM" + struct.pack(">IHH", self.sid, len(attr), len(p)) + attr + p)
         return self.seq, p
 
-    async def wait_reply(self, seq, timeout=2.5):
+    async def wait_reply(self, seq, timeout=2.5, grace=10.0):
+        """a reply that is merely late (loaded machine) is not a lost datagram: after `timeout` the wait goes on for
+        `grace` more seconds before the caller may call it lost"""
+        r = await self._wait_reply(seq, timeout)
+        if r is None and grace:
+            r = await self._wait_reply(seq, grace)
+            if r is not None:
+                self.late = getattr(self, "late", 0) + 1
+        return r
+
+    async def _wait_reply(self, seq, timeout):
         t0 = now()
         while now() - t0 < timeout:
             for (_, label, data) in self.rx:
@@ -278,6 +314,91 @@ async def main(args):
                 jobs.append(saw(lk, ck, 10 if args.thorough else 6, client_id, sess_id))
         for i in range(0, len(jobs), 8):
             await asyncio.gather(*jobs[i:i + 8])
+        # ---------------- size sweep around multiples of the QUIC datagram capacity (fragment count boundaries)
+        async def sweep(lk, ck, cid, sid):
+            s = Session(lk, ck, cid, sid)
+            sessions.append(s)
+            try:
+                await s.open(P, tag)
+            except Exception as e:
+                return
+            seq, _ = s.send(args.seed, origins[0], 100)
+            await s.wait_reply(seq, 2.0)
+            sizes2 = list(range(1120, 1150)) + list(range(2278, 2308)) + ([] if not args.thorough else list(range(3436, 3466)) + list(range(1100, 1200)))
+            for size in sizes2:
+                out.case()
+                seq, p = s.send(args.seed, origins[0], size)
+                r = await s.wait_reply(seq, 2.0)
+                out.nontrivial((lk, ck, "sweep", size))
+                if r is None:
+                    out.violation("datagram lost without network loss (size at a fragment-count boundary): %s via %s" % (lk, ck), {"size": size, "reached_origin": any(d == p for (_, _, d) in origins[0].got)})
+                elif r[1][1:] != p:
+                    out.violation("reply payload differs from the datagram sent: %s via %s" % (lk, ck), {"size": size})
+        jobs = []
+        for lk, ck in (("socks", "q"), ("rev", "q"), ("http", "q"), ("socks", "direct")):
+            sess_id += 1
+            jobs.append(sweep(lk, ck, client_id + 30, sess_id))
+        await asyncio.gather(*jobs)
+        # ---------------- empty payloads: one empty datagram out, the association stays usable
+        empties_before = sum(1 for (_, _, d) in origins[1].got if d == b"")
+        sent_empty = 0
+        for lk, ck, form in (("socks", "direct", "ipv4"), ("socks", "direct", "domain"), ("socks", "s5", "domain"), ("socks", "h", "domain"), ("socks", "q", "ipv4"), ("http", "direct", "domain")):
+            out.case()
+            sess_id += 1
+            s = Session(lk, ck, client_id + 40, sess_id)
+            sessions.append(s)
+            try:
+                await s.open(P, tag)
+            except Exception:
+                continue
+            seq, _ = s.send(args.seed, origins[1], 100, form)
+            await s.wait_reply(seq, 2.0)
+            host = {"ipv4": "127.0.0.1", "domain": "localhost"}[form]
+            if lk == "socks":
+                s.sock.sendto(b"\0\0\0" + addr_v5(host, origins[1].port), s.relay)
+            else:
+                hb = host.encode()
+                attr = (bytes([1, 6]) + socket.inet_pton(socket.AF_INET, host) if form == "ipv4" else bytes([3, len(hb) + 2]) + hb) + struct.pack(">H", origins[1].port)
+                s.ctl.write(b"RPFM" + struct.pack(">IHH", s.sid, len(attr), 0) + attr)
+            sent_empty += 1
+            await asyncio.sleep(0.15)
+            seq, p = s.send(args.seed, origins[1], 64, form)
+            r = await s.wait_reply(seq, 2.0)
+            out.nontrivial((lk, ck, "empty-payload", form))
+            if r is None:
+                out.violation("association unusable after an empty-payload datagram: %s via %s (%s destination)" % (lk, ck, form), {"reached_origin": any(d == p for (_, _, d) in origins[1].got)})
+            # the echo of the empty datagram is a 1-byte 'R': not an error
+            s.rx = [x for x in s.rx if x[2] != b"R"]
+        await asyncio.sleep(0.3)
+        got_empty = sum(1 for (_, _, d) in origins[1].got if d == b"") - empties_before
+        if got_empty != sent_empty:
+            out.violation("empty-payload datagrams are not delivered exactly once", {"sent": sent_empty, "delivered": got_empty})
+        origins[1].got = [x for x in origins[1].got if x[2] != b""]
+        # ---------------- concurrent sessions with multi-fragment datagrams over a QUIC hop that loses packets:
+        # loss is expected, but nothing may be delivered corrupted, mixed between sessions or to the wrong session
+        relay_tr, relay = await asyncio.get_running_loop().create_datagram_endpoint(lambda: LossyRelay(("127.0.0.1", P["B.quic"]), rng), local_addr=("127.0.0.1", P["relay"]))
+        group = []
+        for k in range(4):
+            sess_id += 1
+            s = Session("socks", "ql", client_id + 60 + k, sess_id)
+            try:
+                await s.open(P, tag)
+                group.append(s)
+                sessions.append(s)
+            except Exception as e:
+                out.inconclusive += 1
+        for s in group:
+            seq, _ = s.send(args.seed, origins[0], 100)
+            await s.wait_reply(seq, 2.0, grace=0)
+        for rnd in range(40 if args.thorough else 16):
+            for s in group:
+                out.case()
+                s.send(args.seed, origins[rng.randrange(2)], rng.choice([2400, 3000, 3400, 4000, 4500]))
+            await asyncio.sleep(0.02)
+        await asyncio.sleep(1.0)
+        out.setx("lossy_quic_packets_dropped", relay.dropped)
+        out.nontrivial(("socks", "ql", "lossy-concurrent", len(group), relay.dropped > 0))
+        relay_tr.close()
         # ---------------- pipelined bursts over concurrent sessions (safety only)
         burst_sessions = []
         for lk, ck in [(lk, ck) for lk in ("socks", "http") for ck in UDPC] * (2 if args.thorough else 1):
@@ -388,6 +509,7 @@ async def main(args):
         out.setx("datagrams_at_origins", sum(len(o.got) for o in origins))
         out.setx("datagrams_at_clients", sum(len(s.rx) for s in sessions))
         out.setx("sessions", len(sessions))
+        out.setx("late_replies", sum(getattr(s, "late", 0) for s in sessions))
         for p in (A, B):
             if not p.alive():
                 out.violation("proxy process died", {"proxy": p.name, "rc": p.exit_status(), "stderr": p.stderr_tail(800)})
